@@ -1,3 +1,4 @@
+pub mod c01;
 pub mod c09;
 pub mod c10;
 pub mod c11;
@@ -6,36 +7,111 @@ pub mod common;
 use crate::harness::{Stats, Tier, Violation};
 use serde::Serialize;
 
-/// Runs `f`; a panic raised from decoder code (location under /repo) becomes a violation of the
-/// property at hand (no listed property can hold for a call that panics). Panics from harness code
-/// propagate (they are harness errors, exit 2).
-pub fn isolate<S: Serialize>(
+/// How long a decoder call may stay blocked (no heartbeat, no CPU time consumed) before the run
+/// is declared hung. A blocked thread cannot be killed: it is leaked and the worker carries on.
+const HANG_WALL_SECS: f64 = 6.0;
+
+/// Runs `f` on its own thread under a watchdog.
+/// * a panic raised from decoder code (location under /repo or in std/deps called from it) becomes
+///   a violation of the property at hand (no listed property can hold for a call that panics);
+///   panics from harness code propagate (harness errors, exit 2);
+/// * a call that blocks forever (thread makes no progress and burns no CPU) becomes a violation
+///   of class `hang:<step>`.
+pub fn isolate<S: Serialize + Clone + Send + 'static>(
     property: &str,
     check: &str,
     seed: u64,
     sc: &S,
     stats: &mut Stats,
-    f: impl FnOnce(&mut Stats) -> Result<(), Violation>,
+    f: impl FnOnce(&S, &mut Stats) -> Result<(), Violation> + Send + 'static,
 ) -> Result<(), Violation> {
-    let r = std::panic::catch_unwind(std::panic::AssertUnwindSafe(|| f(stats)));
-    match r {
-        Ok(r) => r,
-        Err(p) => {
-            let loc = crate::harness::last_panic_location();
-            if loc.starts_with("/repo/") || loc.contains("/rustc/") || loc.contains("/.cargo/registry/") {
-                Err(Violation {
-                    property: property.into(),
-                    check: check.into(),
-                    class: format!("panic:{}", loc.trim_start_matches("/repo/crates/")),
-                    detail: format!("decoder panicked at {loc}: {}", crate::harness::panic_message(&*p)),
-                    seed,
-                    scenario: serde_json::to_value(sc).unwrap(),
-                })
-            } else {
-                std::panic::resume_unwind(p)
+    use std::sync::atomic::Ordering;
+    let (tx, rx) = std::sync::mpsc::channel();
+    let (tid_tx, tid_rx) = std::sync::mpsc::channel();
+    let sc_thread = sc.clone();
+    let handle = std::thread::Builder::new()
+        .stack_size(256 << 20)
+        .spawn(move || {
+            let _ = tid_tx.send(unsafe { libc::pthread_self() });
+            let mut local = Stats::default();
+            let r = std::panic::catch_unwind(std::panic::AssertUnwindSafe(|| f(&sc_thread, &mut local)));
+            let r = r.map_err(|p| (crate::harness::last_panic_location(), crate::harness::panic_message(&*p)));
+            let _ = tx.send((r, local));
+        })
+        .expect("spawn");
+    let tid = tid_rx.recv().expect("thread id");
+    let mut last_beat = crate::harness::HEARTBEAT.load(Ordering::Relaxed);
+    let mut last_cpu = crate::harness::cpu_secs_of(tid).unwrap_or(0.0);
+    let mut stalled_since = std::time::Instant::now();
+    loop {
+        match rx.recv_timeout(std::time::Duration::from_millis(500)) {
+            Ok((r, local)) => {
+                let _ = handle.join();
+                stats.merge(local);
+                return match r {
+                    Ok(r) => r,
+                    Err((loc, msg)) => {
+                        if loc.starts_with("/repo/") || loc.contains("/rustc/") || loc.contains("/.cargo/registry/") {
+                            Err(Violation {
+                                property: property.into(),
+                                check: check.into(),
+                                class: panic_class(&loc, &msg),
+                                detail: format!("decoder panicked at {loc}: {msg}"),
+                                seed,
+                                scenario: serde_json::to_value(sc).unwrap(),
+                            })
+                        } else {
+                            panic!("harness panic at {loc}: {msg}");
+                        }
+                    }
+                };
             }
+            Err(std::sync::mpsc::RecvTimeoutError::Timeout) => {
+                let beat = crate::harness::HEARTBEAT.load(Ordering::Relaxed);
+                let cpu = crate::harness::cpu_secs_of(tid).unwrap_or(last_cpu);
+                if beat != last_beat || cpu - last_cpu > 0.05 {
+                    last_beat = beat;
+                    last_cpu = cpu;
+                    stalled_since = std::time::Instant::now();
+                } else if stalled_since.elapsed().as_secs_f64() > HANG_WALL_SECS {
+                    let step = crate::harness::CURRENT_STEP_SHARED.lock().map(|g| g.clone()).unwrap_or_default();
+                    // leak the blocked thread
+                    std::mem::forget(handle);
+                    return Err(Violation {
+                        property: property.into(),
+                        check: check.into(),
+                        class: format!("hang:{}", step.split(' ').next().unwrap_or("")),
+                        detail: format!("call never returned: thread blocked for more than {HANG_WALL_SECS}s without consuming CPU time during step `{step}`"),
+                        seed,
+                        scenario: serde_json::to_value(sc).unwrap(),
+                    });
+                }
+            }
+            Err(std::sync::mpsc::RecvTimeoutError::Disconnected) => panic!("worker thread vanished"),
         }
     }
+}
+
+/// Violation class of a decoder panic: source file + message with numbers normalised (line numbers
+/// are left out so that unrelated edits to the file do not change the class).
+pub fn panic_class(loc: &str, msg: &str) -> String {
+    let file = loc.trim_start_matches("/repo/crates/").split(':').next().unwrap_or("").to_string();
+    let file = if let Some(i) = file.find("/library/") { format!("std{}", &file[i + 8..]) } else { file };
+    let mut norm = String::new();
+    let mut in_digits = false;
+    for ch in msg.chars().take(120) {
+        if ch.is_ascii_digit() {
+            if !in_digits {
+                norm.push('N');
+            }
+            in_digits = true;
+        } else {
+            in_digits = false;
+            norm.push(if ch == ' ' { '_' } else { ch });
+        }
+    }
+    norm.truncate(70);
+    format!("panic:{file}:{norm}")
 }
 
 macro_rules! dispatch {
@@ -46,7 +122,7 @@ macro_rules! dispatch {
                 $($name => {
                     let sc = $m::generate(seed, tier);
                     let digest = $m::digest(&sc);
-                    isolate($prop, $name, seed, &sc, stats, |st| $m::execute(seed, &sc, st))?;
+                    isolate($prop, $name, seed, &sc, stats, move |sc, st| $m::execute(seed, sc, st))?;
                     Ok(digest)
                 })*
                 _ => panic!("unknown check {check}"),
@@ -58,7 +134,7 @@ macro_rules! dispatch {
             match v.check.as_str() {
                 $($name => {
                     let sc: $m::Scenario = serde_json::from_value(v.scenario.clone()).expect("scenario");
-                    isolate($prop, $name, v.seed, &sc, stats, |st| $m::execute(v.seed, &sc, st))
+                    { let seed = v.seed; isolate($prop, $name, seed, &sc, stats, move |sc, st| $m::execute(seed, sc, st)) }
                 })*
                 other => panic!("unknown check {other}"),
             }
@@ -79,12 +155,15 @@ macro_rules! dispatch {
                     let seed = v.seed;
                     let still = |cand: &$m::Scenario| -> Option<Violation> {
                         let mut st = Stats::default();
-                        match isolate($prop, $name, seed, cand, &mut st, |st| $m::execute(seed, cand, st)) {
+                        match isolate($prop, $name, seed, cand, &mut st, move |sc, st| $m::execute(seed, sc, st)) {
                             Err(v2) if v2.class == class => Some(v2),
                             _ => None,
                         }
                     };
-                    let small = $m::minimise(&sc, &|c| still(c).is_some());
+                    // bounded minimisation: stop shrinking after the budget, keep the best so far
+                    let t0 = std::time::Instant::now();
+                    let budget = if class.starts_with("hang") { 100.0 } else { 60.0 };
+                    let small = $m::minimise(&sc, &|c| t0.elapsed().as_secs_f64() < budget && still(c).is_some());
                     still(&small).unwrap_or(v)
                 })*
                 _ => v,
@@ -94,6 +173,7 @@ macro_rules! dispatch {
 }
 
 dispatch! {
+    "c01" => c01, "C01";
     "c09" => c09, "C09";
     "c10" => c10, "C10";
     "c11" => c11, "C11";
